@@ -38,6 +38,10 @@ SENT = "\ue000m\ue001"          # private-use element name for the oracle run
 CHILD0 = 0xF0000               # private-use plane: sentinel words standing for children
 
 QUERIES = [
+    # a blank between a field name and its colon (F1 territory): whatever the tree prints, the marker's copy must
+    # print the same
+    'title :foo', 'a OR title : (b AND c)  OR d', 'x:y AND name  :"john doe"~2', 'f\t:[1 TO 2] g',
+    'price:>10 OR price:<=5', '>10', 'date:>=2020-01-01 AND NOT draft', 'f:(<1 OR >5)',
     'a',
     'foo:bar',
     'a AND b',
